@@ -330,6 +330,9 @@ func c07Replay(h *c07Hist, limit uint64, variant string) (problems []string) {
 		case "uncancel":
 			th.Uncancel()
 			i++
+		case "setlimit":
+			th.SetMaxExecutionSteps(uint64(arg))
+			i++
 		case "start":
 			// collect this execution's gate actions: cancels that follow the k-th head
 			gates = map[int]*gateAct{}
@@ -337,7 +340,7 @@ func c07Replay(h *c07Hist, limit uint64, variant string) (problems []string) {
 			j := i + 1
 			for j < len(h.Hist) {
 				a := h.Hist[j][0].(string)
-				if a == "start" || a == "uncancel" || a == "icancel" {
+				if a == "start" || a == "uncancel" || a == "icancel" || a == "setlimit" {
 					break
 				}
 				if a == "head" {
